@@ -22,8 +22,8 @@ N = 4
 
 @st.composite
 def pair(draw):
-    vp = draw(st.sampled_from(["std", "fresh", "std", "fresh", "long", "lower", "ints"]))
-    tp = draw(st.sampled_from(["ab", "ab", "abc", "tok", "shared", "fresh"]))
+    vp = draw(st.sampled_from(["std", "fresh", "std", "fresh", "long", "lower", "ints", "int_str"]))
+    tp = draw(st.sampled_from(["ab", "ab", "abc", "tok", "shared", "fresh", "int_str"]))
     g1 = draw(gen_cfg.cfg_desc(var_pools=[vp], term_pools=[tp], max_prods=6, max_body=3))
     k = draw(st.integers(0, 9))
     if k == 0:
